@@ -18,14 +18,14 @@ CONSTANTS Mode, Emit
 
 Forms    == {"str", "stream", "bytes_enc", "bytes_utf8", "bytes_raw"}
 Contents == {"ascii", "latin1", "bmp", "astral", "ascii_backslash", "latin1_backslash", "bmp_backslash"}
-Encs     == {"utf-8", "latin-1", "cp1251", "gbk", "utf-16"}
+Encs     == {"utf-8", "latin-1", "cp1251", "gbk", "utf-16", "utf-16-le", "utf-7"}
 Apis     == {"parse", "parsestream", "split", "format"}
 
 Base(c) == CASE c \in {"ascii", "ascii_backslash"} -> "ascii" [] c \in {"latin1", "latin1_backslash"} -> "latin1"
              [] c \in {"bmp", "bmp_backslash"} -> "bmp" [] OTHER -> "astral"
 \* can the encoding represent the content class (pools are chosen accordingly: bmp = Cyrillic + CJK)
 Representable(c, e) ==
-    CASE e \in {"utf-8", "utf-16"} -> TRUE
+    CASE e \in {"utf-8", "utf-16", "utf-16-le", "utf-7"} -> TRUE
       [] e = "latin-1" -> Base(c) \in {"ascii", "latin1"}
       [] e = "cp1251"  -> Base(c) \in {"ascii"}          \* (Cyrillic is drawn separately; keep the claim simple)
       [] e = "gbk"     -> Base(c) \in {"ascii"}
@@ -48,7 +48,7 @@ Wraps     == {"none", "0", "20"}
 BoolArgs  == {"none", "True", "False", "x"}        \* type=bool: bool("False") is True
 Chan      == {"file", "stdin"}
 OutChan   == {"stdout", "outfile"}
-CliEncs   == {"utf-8", "gbk", "latin-1", "utf-16"}
+CliEncs   == {"utf-8", "gbk", "latin-1", "utf-16", "utf-16-le"}
 
 BoolOf(a) == a # "none"
 
